@@ -232,6 +232,8 @@ def _one_segment(r, script, qmax, frag, corr, items):
 def correspond(ctx, corr, model_ok):
     from harness import battery
     battery.run(corr, ['lease-queue-across-reconnect'])
+    corr.oracle_failures.extend(server_requester_oracle())
+    corr.count('server endpoint as lease-honouring requester', 2)
     rng = ctx.rng
     items = []
     for i in range(ctx.scale(250, 4000)):
@@ -294,6 +296,8 @@ def replay(obj):
     if _r is not None:
         return _r
     case = obj['case']
+    if case['kind'] == 'server-requester':
+        return bool(server_requester_oracle())
     if case['kind'] == 'requester':
         script = [tuple(s) for s in case['script']]
         o = None
@@ -305,3 +309,54 @@ def replay(obj):
     if o:
         print('oracle:', o)
     return bool(o)
+
+
+# ---------------------------------------------------------------------------------------------
+# a SERVER endpoint as requester honouring leases (honor_lease=True on RSocketServer): the same rules as for a client
+
+def run_server_requester(lenreq):
+    from rsocket.rsocket_server import RSocketServer
+    from rsocket.payload import Payload
+    from reactivestreams.subscriber import DefaultSubscriber
+    loop = sim.new_loop()
+    sim.patch_clock(loop)
+    T = sim.make_transport_class()
+    t = T(lenreq=lenreq)
+    box = {}
+    try:
+        loop.run(lambda: box.setdefault('s', RSocketServer(t, honor_lease=True)))
+        loop.settle()
+        s = box['s']
+
+        def issue():
+            s.request_response(Payload(b'q1'))
+            s.fire_and_forget(Payload(b'q2'))
+            s.request_stream(Payload(b'q3')).subscribe(DefaultSubscriber())
+            s.request_channel(Payload(b'q4')).subscribe(DefaultSubscriber())
+        loop.run(issue)
+        loop.settle()
+        stages = []
+
+        def reqs():
+            return [bytes(f.get('d') or b'') for f in (sim.parse_sent(b) for b in t.sent) if f['t'].startswith('Request') and f['t'] != 'RequestN']
+        stages.append(reqs())
+        t.inject_frame(FR.build({'t': 'Lease', 'sid': 0, 'ign': False, 'ttl': 60000, 'n': 2, 'md': b''}).serialize())
+        loop.settle()
+        stages.append(reqs())
+        t.inject_frame(FR.build({'t': 'Lease', 'sid': 0, 'ign': False, 'ttl': 60000, 'n': 5, 'md': b''}).serialize())
+        loop.settle()
+        stages.append(reqs())
+        return stages
+    finally:
+        loop.finish()
+
+
+def server_requester_oracle():
+    out = []
+    for lenreq in (True, False):
+        st = run_server_requester(lenreq)
+        want = [[], [b'q1', b'q2'], [b'q1', b'q2', b'q3', b'q4']]
+        if st != want:
+            out.append({'what': 'server endpoint with honor_lease=True: requests on the wire before a lease / after LEASE(2) / after LEASE(5): '
+                                '%s, expected %s' % (st, want), 'kind': 'server-requester', 'server_requester_case': lenreq})
+    return out
